@@ -26,6 +26,7 @@ import XotModel.Lemmas.SerTokensDecode
 import XotModel.Lemmas.SerTokensPieces
 import XotModel.Lemmas.RoundTripTokens
 import XotModel.Lemmas.RoundTripEncode
+import XotModel.Lemmas.RoundTripSerialises
 import XotModel.Props.C02
 
 namespace XotModel.Props
@@ -233,7 +234,7 @@ theorem C01_spelling_well (env : Env) (t : Tree) (hr : RepresentableFragment env
 theorem C01_envBaseNs (env : Env) (h : envOK env = true) : EnvBaseNs env :=
   (envFacts_of_envOK h).envBaseNs
 
-theorem representable_ser {env : Env} {t : Tree} (hr : RepresentableFragment env t = true) {s : Str}
+theorem C01_serialised_ok_representable {env : Env} {t : Tree} (hr : RepresentableFragment env t = true) {s : Str}
     (hs : toXmlString env t [] = .ok s) : ∃ ts, serTokensTop env t = .ok ts ∧ s = renderTokens ts := by
   rw [C01_serialised_is_rendering_representable env t hr] at hs
   cases hts : serTokensTop env t with
@@ -255,7 +256,7 @@ theorem C01_main (env : Env) (t : Tree) (hr : Representable env t = true)
   have hr' := hr
   simp only [Representable, Bool.and_eq_true] at hr'
   obtain ⟨hfrag, hsingle⟩ := hr'
-  obtain ⟨ts0, hser, rfl⟩ := representable_ser hfrag hs
+  obtain ⟨ts0, hser, rfl⟩ := C01_serialised_ok_representable hfrag hs
   obtain ⟨ts, hl, her⟩ := hlex ts0 (C01_rendering_lexok env t hr ts0 hser)
   obtain ⟨ks, rfl, hf⟩ := topFacts hfrag hser
   have hA := spell_tokens env _ ts0 hser
@@ -275,7 +276,7 @@ theorem C01_main_fragment (env : Env) (t : Tree) (hr : RepresentableFragment env
     (hs : toXmlString env t [] = .ok s) :
     ∃ ts p, lex s = (ts, none) ∧ build .fragment (strLen s) env ts none = .ok p ∧
       p.tree.value = .document ∧ decodeNs p.env p.tree.kids = decodeNs env t.kids := by
-  obtain ⟨ts0, hser, rfl⟩ := representable_ser hr hs
+  obtain ⟨ts0, hser, rfl⟩ := C01_serialised_ok_representable hr hs
   obtain ⟨ts, hl, her⟩ := hlex ts0 (C01_rendering_lexok_fragment env t hr ts0 hser)
   obtain ⟨ks, rfl, hf⟩ := topFacts hr hser
   have hA := spell_tokens env _ ts0 hser
@@ -340,7 +341,7 @@ theorem C01_main_identical (env : Env) (t : Tree) (hr : Representable env t = tr
       p.tree = t ∧ p.env = env := by
   have hfrag : RepresentableFragment env t = true := by
     simp only [Representable, Bool.and_eq_true] at hr; exact hr.1
-  obtain ⟨ts0, hser, rfl⟩ := representable_ser hfrag hs
+  obtain ⟨ts0, hser, rfl⟩ := C01_serialised_ok_representable hfrag hs
   obtain ⟨ts, hl, her⟩ := hlex ts0 (C01_rendering_lexok env t hr ts0 hser)
   obtain ⟨p0, hb, ht, he⟩ := C01_build env t hr ts0 hser (strLen (renderTokens ts0))
   obtain ⟨p, hp, h1, h2, _⟩ := C02_positions_irrelevant_ok .document _ (strLen (renderTokens ts0)) env ts0 ts
@@ -353,7 +354,7 @@ theorem C01_main_fragment_identical (env : Env) (t : Tree) (hr : RepresentableFr
     (hs : toXmlString env t [] = .ok s) :
     ∃ ts p, lex s = (ts, none) ∧ build .fragment (strLen s) env ts none = .ok p ∧
       p.tree = t ∧ p.env = env := by
-  obtain ⟨ts0, hser, rfl⟩ := representable_ser hr hs
+  obtain ⟨ts0, hser, rfl⟩ := C01_serialised_ok_representable hr hs
   obtain ⟨ts, hl, her⟩ := hlex ts0 (C01_rendering_lexok_fragment env t hr ts0 hser)
   obtain ⟨p0, hb, ht, he⟩ := C01_build_fragment env t hr ts0 hser (strLen (renderTokens ts0))
   obtain ⟨p, hp, h1, h2, _⟩ := C02_positions_irrelevant_ok .fragment _ (strLen (renderTokens ts0)) env ts0 ts
@@ -388,5 +389,33 @@ example : WellNsDoc (spellTop c01Env c01Doc) := by
   obtain ⟨ts, h1, _⟩ := C01_serialised_is_rendering_ok c01Env c01Doc (by decide) (by decide) c01Text
     (by decide)
   exact C01_spelling_well c01Env c01Doc (by decide) ts h1
+
+/-! ### When does serialisation succeed? -/
+
+/-- **C01_serialises**: for a representable document or fragment, `to_string` succeeds exactly when
+    every namespaced name has a usable prefix in scope — `namesWritable` (Model/Scope.lean), the
+    serialiser's own `MissingPrefix` checks run over the tree with the name stack
+    `XmlSerializer::new` builds: no element in no namespace under a default namespace,
+    `element_fullname` and every `attribute_fullname` answer (C10_error_element / _attribute say when;
+    `create_missing_prefixes` establishes it: C10_repair_document_writable).  The hypothesis
+    `toXmlString … = .ok s` of C01_main is therefore this decidable condition on the tree. -/
+theorem C01_serialises (env : Env) (t : Tree) (hr : RepresentableFragment env t = true) :
+    (∃ s, toXmlString env t [] = .ok s) ↔ namesWritable env t [] = some true := by
+  rw [← serTokensTop_ok_iff hr, C01_serialised_is_rendering_representable env t hr]
+  cases serTokensTop env t <;> simp [exceptIsOk]
+
+/-- C01_main with the decidable condition in place of "serialisation succeeds". -/
+theorem C01_main_writable (env : Env) (t : Tree) (hr : Representable env t = true)
+    (hw : namesWritable env t [] = some true)
+    (lex : Str → List Token × Option Nat) (hlex : LexCanon false lex) :
+    ∃ s ts p, toXmlString env t [] = .ok s ∧ lex s = (ts, none) ∧
+      build .document (strLen s) env ts none = .ok p ∧ p.tree = t ∧ p.env = env := by
+  have hfrag : RepresentableFragment env t = true := by
+    simp only [Representable, Bool.and_eq_true] at hr; exact hr.1
+  obtain ⟨s, hs⟩ := (C01_serialises env t hfrag).mpr hw
+  obtain ⟨ts, p, h1, h2, h3, h4⟩ := C01_main_identical env t hr lex hlex s hs
+  exact ⟨s, ts, p, hs, h1, h2, h3, h4⟩
+
+example : namesWritable c01Env c01Doc [] = some true := by decide
 
 end XotModel.Props
